@@ -84,3 +84,29 @@ def run(F, R, tier):
         ret = [n for n in walk(blk) if n.get("k") == "LetStmt" and n["pat"].get("name") == "retain"]
         ok = len(ret) == 1 and peel(ret[0]["init"]).get("k") == "Unary" and "is_empty" in expr_text(ret[0]["init"])
         R.ob("C11-d", "the statement is dropped when no specifier remains", ok, "retain = %s" % (expr_text(ret[0]["init"]) if ret else "?"), where(r))
+
+    # ---------------- C11-e ------------------------------------------------
+    # merging trace requests never forgets a requested `default` (shared with C09-L)
+    ad = F.body("fast_check::range_finder::ImportedExports::add")
+    stars = [n for n in ad["_nodes"] if n["k"] == "Assign" and ctor_of(peel(n["r"])) == "fast_check::range_finder::ImportedExports::Star"]
+    R.floor("C11-e downgrades to Star in ImportedExports::add", len(stars), 1)
+    for a in stars:
+        g = guards_at(F, a)
+        ok = any(x.kind == "cond" and not x.pol and x.node.get("k") == "MethodCall" and x.node["name"] == "contains_key" and peel(x.node["args"][0]).get("v") == "default" for x in g)
+        R.ob("C11-e", "a requested `default` export survives a later star request for the same module", ok,
+             "`*self = ImportedExports::Star` without `!subset.contains_key(\"default\")`: the default export requested by an earlier re-export is dropped from the emitted module while the entrypoint still re-exports it", where(a))
+    # optional-parameter normalisation: which patterns continue a trailing optional run
+    bs = [b for b in F.bodies if b["path"].endswith("ParamsOptionalStartIndex::build::is_param_pat_optional")]
+    if R.ob("C11-e", "optional-run classifier found", len(bs) == 1, "is_param_pat_optional moved", "src/fast_check/transform.rs"):
+        mm = [n for n in bs[0]["_nodes"] if n["k"] == "Match"]
+        table = {}
+        ca = False
+        for arm in mm[0]["arms"] if mm else []:
+            v, c = pat_variants(arm["pat"])
+            ca = ca or c
+            b_ = peel(arm["body"])
+            for x in v:
+                table[x.split("::")[-1]] = b_.get("v") if b_.get("k") == "Lit" else ("field:" + b_.get("field", "?") if b_.get("k") == "Field" else "?")
+        R.ob("C11-e", "defaulted and rest parameters continue a trailing optional run", table.get("Assign") is True and table.get("Rest") is True and not ca,
+             "is_param_pat_optional maps Assign -> %s, Rest -> %s: `f(a = 1, ...rest)` would be emitted with `a` as a required parameter, changing the public signature beyond the documented normalisation" % (table.get("Assign"), table.get("Rest")), bs[0]["file"])
+        R.ob("C11-e", "identifier / array / object patterns are optional exactly when marked so", all(table.get(k) == "field:optional" for k in ("Ident", "Array", "Object")), "table: %s" % table, bs[0]["file"])
